@@ -125,8 +125,25 @@ def discharge(obls, procs=None, opts=None):
     if len(jobs) <= 1 or procs == 1:
         return [discharge_one(j) for j in jobs]
     ctx = mp.get_context("fork")
-    with ctx.Pool(procs) as pool:
-        return pool.map(discharge_one, jobs, chunksize=1)
+    # hard wall-clock limit per obligation: z3's own timeout is occasionally not honoured (nonlinear arithmetic); a worker
+    # that overruns every stage budget by a wide margin is abandoned and its obligation stays undecided ("unknown")
+    stage_s = (opts.get("z3_ms", Z3_TIMEOUT_MS) * 2 + 10000) / 1000.0 + opts.get("cvc5_s", CVC5_TIMEOUT_S) + opts.get("cross_s", 10)
+    hard_s = 3 * stage_s + 60
+    pool = ctx.Pool(procs)
+    try:
+        handles = [pool.apply_async(discharge_one, (j,)) for j in jobs]
+        out = []
+        t_end = time.time() + hard_s * max(1, (len(jobs) + procs - 1) // procs)
+        for j, h in zip(jobs, handles):
+            try:
+                out.append(h.get(timeout=max(5.0, t_end - time.time())))
+            except mp.TimeoutError:
+                out.append({"name": j[0], "backend": "none", "result": "unknown", "ms": int(hard_s * 1000), "model": None,
+                            "reason": "hard wall-clock limit: the solver ignored its timeout"})
+        return out
+    finally:
+        pool.terminate()
+        pool.join()
 
 
 def reach_one(job):
